@@ -4,8 +4,9 @@
 (* formatting comes last.  With Export the option sets and their plans are printed   *)
 (* for replay against the real command.                                              *)
 EXTENDS Cli
+CONSTANT NearOnly        \* TRUE: only the option sets within two fields of the empty option set (Cli!NearDefault)
 VARIABLES o
-Init == o \in OptSpace
+Init == o \in (IF NearOnly THEN NearDefault ELSE OptSpace)
 Next == UNCHANGED o
 Spec == Init /\ [][Next]_o
 StageLists == LET s == Stages(o) IN
